@@ -122,6 +122,25 @@ def _find_literal(prog, fn, adt_suffix):
     return hits
 
 
+def _elem_const_index(ix, o):
+    """Constant element index an operand was read at (`v[4]`, `v[start + 1]` with a constant start - constants folded)."""
+    r = ix.resolve(o)
+    if r[0] != "place":
+        return None
+    pl = r[1]
+    for pr in reversed(pl["p"]):
+        if isinstance(pr, dict) and "i" in pr:
+            rr = ix.resolve({"c": {"l": pr["i"], "p": [], "ty": "usize"}})
+            return rr[1] if rr[0] == "const" else None
+        if isinstance(pr, dict) and "ci" in pr and not pr.get("fe"):
+            return pr["ci"]
+    d = ix.single_def(pl["l"])
+    if d and d[0] == "call" and (ix.callee(d[3]) or "").split("::")[-1] in ("index", "index_mut") and len(d[3]["args"]) == 2:
+        rr = ix.resolve(d[3]["args"][1])
+        return rr[1] if rr[0] == "const" else None
+    return None
+
+
 def _array_ops(ix, op):
     """Operands of the array literal an operand was built from, or None."""
     r = ix.resolve(op)
@@ -221,17 +240,22 @@ def run(ctx):
                     for o in arr or []:
                         dd = derive(ix, o, skip_index=True)
                         cs = sorted(c for c in dd.consts if 0 <= c < 4)
-                        got.append(cs[0] if len(cs) == 1 else None)
+                        lane = cs[0] if len(cs) == 1 else None
+                        if lane is None and not cs:
+                            lane = _elem_const_index(ix, o)  # `let [x, y, z, _] = v` / `v[k]` through a helper
+                        got.append(lane)
                     ok = ok and got == lanes
                     det += f", lanes {got}"
                 ctx.ob("BONES", f, ok, f"{det}; must be {sorted(need)}" + (f" lanes {lanes}" if lanes else ""), fb.file, fb.line, sample=(f == "position"))
             # same index everywhere: every element access of the three arrays uses the enumerate() counter
             n_acc = 0
+            acc_arrays = set()
             same = True
             for bi, t in _elem_calls(lb):
                 if P.source_name(ix, t["args"][0]) not in ("parent_indices", "reference_pose"):
                     continue
                 n_acc += 1
+                acc_arrays.add(P.source_name(ix, t["args"][0]))
                 di = derive(ix, t["args"][1])
                 calls = {_last(c) for c in di.calls}
                 if in_closure:
@@ -249,7 +273,7 @@ def run(ctx):
                             dm = derive(top_ix, t["args"][0])
                 same = same and dm is not None and "bone_names" in dm.names and "enumerate" in {_last(c) for c in dm.calls}
             ix = top_ix
-            ctx.ob("BONES", "same-index", same and n_acc >= 8, f"{n_acc} element accesses of parent_indices / reference_pose use the enumerate() counter of bone_names unchanged", fb.file, fb.line)
+            ctx.ob("BONES", "same-index", same and acc_arrays == {"parent_indices", "reference_pose"}, f"{n_acc} element accesses of parent_indices / reference_pose use the enumerate() counter of bone_names unchanged", fb.file, fb.line)
             d0 = None
             for bi, t in _elem_calls(fb):
                 if P.source_name(ix, t["args"][0]) == "skeletons":
@@ -314,7 +338,8 @@ def run(ctx):
     member_map("havok::skeleton::HavokSkeleton::new", "havok::skeleton::HavokSkeleton", {"bone_names": ("bones", "as_object"), "parent_indices": ("parentIndices", "as_int"), "reference_pose": ("referencePose", "as_vec")})
     # per-element accessors live in the three map closures, in source order
     hs = "havok::skeleton::HavokSkeleton::new"
-    cls = sorted(prog.closures_of(hs), key=lambda b_: b_.name) if prog.body(hs) else []
+    # (closures, or local fns handed to map(): both are "deep bodies" of the constructor)
+    cls = [b_ for b_ in prog.deep_bodies(hs) if b_.name != hs] if prog.body(hs) else []
     acc = []
     for cb in cls:
         names = [_last(t.get("res")) for _b, t in sorted(cb.calls())]
@@ -325,7 +350,26 @@ def run(ctx):
                 strs |= derive(cix, a).strs
         acc.append((tuple(n_ for n_ in names if n_ in ("as_object", "as_int", "as_vec", "as_string", "as_real", "as_array", "get", "new")), tuple(sorted(strs))))
     want_acc = [(("as_object", "get", "as_string"), ("name",)), (("as_int",), ()), (("as_vec", "new"), ())]
-    ctx.ob("HKNAMES", "element-accessors", acc == want_acc, f"per-element decoding is {acc}; must be bone -> as_object().get(\"name\").as_string(), parent index -> as_int(), pose -> HavokTransform::new(as_vec())", prog.body(hs).file if prog.body(hs) else None, None)
+    if sorted(acc) != sorted(want_acc) and prog.body(hs):
+        # one of the three element loops written in the constructor itself instead of a closure / helper: the accessor
+        # sequences are then looked for as sub-sequences of the constructor's own calls
+        hb_ = prog.body(hs)
+        own = [_last(t.get("res")) for _b, t in sorted(hb_.calls())]
+        hix_ = index_of(hb_)
+        own_strs = set()
+        for _b, t in hb_.calls():
+            for a in t["args"]:
+                own_strs |= derive(hix_, a).strs
+        missing = [w for w in want_acc if w not in acc]
+        extra = [a_ for a_ in acc if a_ not in want_acc]
+
+        def subseq(seq, inside):
+            it = iter(inside)
+            return all(x in it for x in seq)
+
+        if not extra and all(subseq(w[0], own) and set(w[1]) <= own_strs for w in missing) and "as_real" not in own:
+            acc = list(want_acc)
+    ctx.ob("HKNAMES", "element-accessors", sorted(acc) == sorted(want_acc), f"per-element decoding is {acc}; must be bone -> as_object().get(\"name\").as_string(), parent index -> as_int(), pose -> HavokTransform::new(as_vec())", prog.body(hs).file if prog.body(hs) else None, None)
     cb_ = prog.body("havok::animation_container::HavokAnimationContainer::new")
     if cb_:
         cix = index_of(cb_)
@@ -365,7 +409,10 @@ def run(ctx):
                 got = []
                 for o in arr or []:
                     dd = derive(ix, o)
-                    got.append(sorted(dd.consts)[0] if len(dd.consts) == 1 and 1 in dd.params else None)
+                    v_ = sorted(dd.consts)[0] if len(dd.consts) == 1 and 1 in dd.params else None
+                    if v_ is None and 1 in dd.params:
+                        v_ = _elem_const_index(ix, o)
+                    got.append(v_)
                 ctx.ob("TRANSFORM", f, got == [base, base + 1, base + 2, base + 3], f"HavokTransform.{f} is built from elements {got} of the 12-float pose; must be {[base, base + 1, base + 2, base + 3]}", tb.file, tb.line, sample=(f == "rotation"))
 
     # ---- HKTABLE
@@ -470,9 +517,17 @@ def run(ctx):
                             if dd and dd[0] == "assign" and dd[3]["rv"]["k"] == "bin" and dd[3]["rv"]["op"].startswith("Add"):
                                 c1 = const_int(dd[3]["rv"]["b"]) if const_int(dd[3]["rv"]["b"]) is not None else const_int(dd[3]["rv"]["a"])
             firsts = [d for d in pix.defs.get(res_l, []) if d[0] == "assign" and not d[3]["lhs"]["p"] and d[1] != acc_bb]
-            if len(firsts) == 1:
+            firsts_call = [d for d in pix.defs.get(res_l, []) if d[0] == "call" and d[1] != acc_bb]
+            if len(firsts) == 1 and not firsts_call:
                 rv = firsts[0][3]["rv"]
                 ub_first = P.upper_bound(pix, rv["a"]) if rv["k"] in ("use", "cast") else None
+            elif len(firsts_call) == 1 and not firsts:
+                # the first piece converted with u32::from(..) instead of a cast
+                import re as _re
+
+                t_ = firsts_call[0][3]
+                if _re.search(r"convert::From<(u8|u16)>( for \w+)?>::from$", pix.callee(t_)) and t_["args"]:
+                    ub_first = P.upper_bound(pix, t_["args"][0])
             ctx.extra["packed_int"] = dict(first_piece_bound=ub_first, first_shift=c0, next_piece_bound=ub_piece, shift_step=c1)
             ctx.ob("PACKEDINT", "first-piece", ub_first is not None and c0 is not None and ub_first == (1 << c0) == 64, f"the first byte contributes values below {ub_first} and the next piece starts at bit {c0}; the format has 6 value bits in the first byte (bit 0 sign, bit 7 continuation)", pb.file, pb.line, sample=True)
             ctx.ob("PACKEDINT", "next-pieces", ub_piece is not None and c1 is not None and ub_piece == (1 << c1) == 128, f"each further byte contributes values below {ub_piece} and advances the position by {c1}; the format has 7 value bits per continuation byte", pb.file, pb.line)
